@@ -273,7 +273,9 @@ func reachingStore(ld *ssa.UnOp, al *ssa.Alloc, stores []*ssa.Store) *ssa.Store 
 			if o == s {
 				continue
 			}
-			if Search(After(s), isI(o), isI(ld)) != nil && Search(After(o), isI(ld), isI(s)) != nil {
+			// o can run after s (possibly after an earlier execution of the load, in a loop) and its value can then
+			// reach the load without s running again
+			if Search(After(s), isI(o), nil) != nil && Search(After(o), isI(ld), isI(s)) != nil {
 				clean = false
 			}
 		}
